@@ -109,6 +109,7 @@ fn main() {
         "C15" => checks::c15::run(&ctx),
         "C16" => checks::c16::run(&ctx),
         "C17" => checks::c17::run(&ctx),
+        "C18" => checks::c18::run(&ctx),
         _ => {
             eprintln!("unknown property {prop}");
             2
